@@ -1,12 +1,483 @@
-// Package c03 decides C03 (see /verif/DESIGN.md §7).
+// Package c03 decides C03: only material signed by the genesis proposer's key is ever accepted.
 package c03
 
-import "verifharness/vk"
+import (
+	"bytes"
+	"context"
+	"fmt"
+	"math/rand"
+	"os"
+	"sort"
+	"strings"
+	"sync"
+
+	"verifharness/vk"
+	"verifharness/world"
+)
 
 // Level is the verification level claimed for this property.
 const Level = "exploration"
 
+// step is one action of a schedule; adversarial material is attached to it.
+type step struct {
+	Act    world.Action
+	Adv    []Adv // placed at the same DA height as Act.DA (Act.Kind == "da")
+	AdvP2P *Adv  // a foreign header served over P2P at the next position (Act.Kind == "p2p-adv")
+}
+
+// Case is one generated differential case.
+type Case struct {
+	ID           int      `json:"id"`
+	Shape        string   `json:"chain_shape"`
+	Kinds        []string `json:"adversarial_kinds"`
+	Ingress      string   `json:"adversarial_ingress"` // da | p2p
+	Schedule     []string `json:"schedule"`
+	OmitDataOnDA bool     `json:"genuine_data_not_on_da"`
+}
+
+func (c Case) key() string {
+	return fmt.Sprintf("%s %v %s %v %s", c.Shape, c.Kinds, c.Ingress, c.OmitDataOnDA, strings.Join(c.Schedule, " "))
+}
+
+type endState struct {
+	Height uint64
+	Hashes []string
+	StateH uint64
+	Root   string
+	DAInc  uint64
+	Execs  []string
+	Finals []uint64
+	RHB    []string
+	Dead   []string
+}
+
+func snapshot(ctx context.Context, f *world.FN) endState {
+	var s endState
+	s.Height, _ = f.N.Store.Height(ctx)
+	for h := f.P.Spec.Initial; h <= s.Height; h++ {
+		hdr, data, err := f.N.Store.GetBlockData(ctx, h)
+		if err != nil {
+			s.Hashes = append(s.Hashes, "missing")
+			continue
+		}
+		s.Hashes = append(s.Hashes, fmt.Sprintf("%x/%d", hdr.Hash()[:8], len(data.Txs)))
+	}
+	if st, err := f.N.Store.GetState(ctx); err == nil {
+		s.StateH = st.LastBlockHeight
+		s.Root = fmt.Sprintf("%x", st.AppHash)
+	}
+	s.DAInc = f.N.M.GetDAIncludedHeight()
+	for _, c := range f.Exec.Execs() {
+		if c.Err == "" {
+			s.Execs = append(s.Execs, fmt.Sprintf("%d:%d:%x", c.Height, len(c.Txs), c.Root[:6]))
+		}
+	}
+	s.Finals = f.Exec.Finals()
+	for _, k := range f.Im.Keys("/m/rhb/") {
+		v, _ := f.Im.Get(k)
+		s.RHB = append(s.RHB, fmt.Sprintf("%s=%x", k, v))
+	}
+	for _, name := range []string{"sync", "retrieve", "headerStore", "dataStore", "daIncluder"} {
+		if f.L.Exited(name) {
+			s.Dead = append(s.Dead, name)
+		}
+	}
+	return s
+}
+
+func diff(a, b endState) []string {
+	var out []string
+	if a.Height != b.Height {
+		out = append(out, fmt.Sprintf("chain height %d without, %d with adversarial traffic", a.Height, b.Height))
+	}
+	n := len(a.Hashes)
+	if len(b.Hashes) < n {
+		n = len(b.Hashes)
+	}
+	for i := 0; i < n; i++ {
+		if a.Hashes[i] != b.Hashes[i] {
+			out = append(out, fmt.Sprintf("stored block at index %d differs (%s vs %s)", i, a.Hashes[i], b.Hashes[i]))
+			break
+		}
+	}
+	if a.Root != b.Root || a.StateH != b.StateH {
+		out = append(out, fmt.Sprintf("state differs (height %d/%d)", a.StateH, b.StateH))
+	}
+	if a.DAInc != b.DAInc {
+		out = append(out, fmt.Sprintf("DA-included height %d without, %d with adversarial traffic", a.DAInc, b.DAInc))
+	}
+	if strings.Join(a.Execs, ",") != strings.Join(b.Execs, ",") {
+		out = append(out, fmt.Sprintf("execution log differs: %v vs %v", a.Execs, b.Execs))
+	}
+	if fmt.Sprint(a.Finals) != fmt.Sprint(b.Finals) {
+		out = append(out, fmt.Sprintf("SetFinal log differs: %v vs %v", a.Finals, b.Finals))
+	}
+	if strings.Join(a.RHB, ",") != strings.Join(b.RHB, ",") {
+		out = append(out, "recorded DA heights (rhb metadata) differ")
+	}
+	return out
+}
+
+// runSide executes the schedule with (adv=true) or without adversarial material.
+func runSide(ctx context.Context, r *vk.Run, p *world.Produced, steps []step, adv bool) (*world.FN, endState, string, bool) {
+	root := world.TempDir(vk.Root(), "C03-*")
+	defer os.RemoveAll(root)
+	f, err := world.NewFN(ctx, p, root)
+	if err != nil {
+		return nil, endState{}, "full node failed to start: " + err.Error(), false
+	}
+	for i, st := range steps {
+		a := st.Act
+		if a.Kind == "p2p-adv" {
+			if !adv || st.AdvP2P == nil {
+				continue
+			}
+			h := decodeHeaderLoose(st.AdvP2P.Blob)
+			if h == nil {
+				continue
+			}
+			if err := f.AddForeignP2PHeader(h); err != nil {
+				if err == world.ErrWatchdog {
+					return f, endState{}, "", true
+				}
+				return f, snapshot(ctx, f), fmt.Sprintf("step %d (foreign P2P header %s): %v", i, st.AdvP2P.Kind, err), false
+			}
+			continue
+		}
+		if adv {
+			for _, x := range st.Adv {
+				a.Junk = append(a.Junk, x.Blob)
+			}
+			// adversarial blobs may come first or last within the DA height
+			if len(st.Adv) > 0 && len(st.Adv)%2 == 1 {
+				a.JunkFirst = true
+			}
+		}
+		if err := f.Do(a); err != nil {
+			if err == world.ErrWatchdog {
+				return f, endState{}, "", true
+			}
+			return f, snapshot(ctx, f), fmt.Sprintf("step %d (%s): %v", i, a, err), false
+		}
+	}
+	for _, a := range []world.Action{{Kind: "scan"}, {Kind: "include"}, {Kind: "include"}} {
+		if err := f.Do(a); err != nil {
+			if err == world.ErrWatchdog {
+				return f, endState{}, "", true
+			}
+			return f, snapshot(ctx, f), fmt.Sprintf("final %s: %v", a.Kind, err), false
+		}
+	}
+	s := snapshot(ctx, f)
+	return f, s, "", false
+}
+
+func runCase(r *vk.Run, p *world.Produced, c Case, steps []step, advs []Adv) {
+	ctx := context.Background()
+	wit := func(extra map[string]any) any {
+		m := map[string]any{"case": c}
+		var items []string
+		for _, a := range advs {
+			items = append(items, fmt.Sprintf("%s h=%d data=%v blob=%s", a.Kind, a.Height, a.IsData, vk.HexShort(a.Blob)))
+		}
+		m["adversarial_items"] = items
+		for k, v := range extra {
+			m[k] = v
+		}
+		return m
+	}
+	fa, sa, errA, wdA := runSide(ctx, r, p, steps, false)
+	if fa != nil {
+		defer fa.L.Stop()
+	}
+	fb, sb, errB, wdB := runSide(ctx, r, p, steps, true)
+	if fb != nil {
+		defer fb.L.Stop()
+	}
+	if wdA || wdB {
+		r.Inconclusive(fmt.Sprintf("watchdog in case %d", c.ID))
+		return
+	}
+	if errA != "" {
+		r.Violation("genuine-run", "the run WITHOUT adversarial traffic failed: "+errA, wit(nil))
+		return
+	}
+	var viol []string
+	keyBinding := false
+	if errB != "" {
+		viol = append(viol, "with adversarial traffic: "+errB)
+	}
+	r.Hit("differential")
+	for _, d := range diff(sa, sb) {
+		viol = append(viol, d)
+	}
+	if c.Ingress == "da" {
+		r.Hit("not-halted")
+		if len(sb.Dead) > len(sa.Dead) {
+			viol = append(viol, fmt.Sprintf("loops terminated by third-party DA material: %v", sb.Dead))
+		}
+	}
+	// direct clauses on the run with adversarial traffic
+	if fb != nil {
+		for h := p.Spec.Initial; h <= sb.Height; h++ {
+			hdr, _, err := fb.N.Store.GetBlockData(ctx, h)
+			if err != nil {
+				continue
+			}
+			r.Hit("stored-header-signed-by-proposer")
+			payload, _ := hdr.Header.MarshalBinary()
+			if ok, err := p.Keys.Pub.Verify(payload, hdr.Signature); err != nil || !ok {
+				viol = append(viol, fmt.Sprintf("stored header at height %d is not signed by the genesis proposer's key", h))
+				keyBinding = true
+			}
+		}
+		genuineHdr := map[string]bool{}
+		genuineComm := map[string]bool{}
+		for i := range p.Heights {
+			genuineHdr[string(p.HeaderHash[i])] = true
+			if len(p.Txs[i]) > 0 {
+				genuineComm[string(commitmentOf(p.Txs[i]))] = true
+			}
+		}
+		for _, a := range advs {
+			if a.HdrHash != nil && !genuineHdr[string(a.HdrHash)] {
+				r.Hit("no-da-mark-for-foreign-header")
+				if fb.N.M.HeaderCache().IsDAIncluded(fmt.Sprintf("%X", a.HdrHash)) || fb.N.M.HeaderCache().IsDAIncluded(hashString(a.HdrHash)) {
+					viol = append(viol, fmt.Sprintf("a %s header (height %d) not signed by the proposer is marked DA-included", a.Kind, a.Height))
+					keyBinding = true
+				}
+			}
+			if a.DataComm != nil && !genuineComm[string(a.DataComm)] {
+				r.Hit("no-da-mark-for-foreign-data")
+				if fb.N.M.DataCache().IsDAIncluded(hashString(a.DataComm)) {
+					viol = append(viol, fmt.Sprintf("%s data (height %d) not signed by the proposer is marked DA-included", a.Kind, a.Height))
+					keyBinding = true
+				}
+			}
+		}
+	}
+	if len(viol) > 0 {
+		detail := strings.Join(viol, " ;; ")
+		id := "C03-key-binding"
+		usesOtherKey := false
+		for _, k := range c.Kinds {
+			switch k {
+			case "forged-otherkey", "forged-pair-header", "forged-pair-data", "resigned-data-copy", "mutated-resigned", "past-height", "future-height":
+				usesOtherKey = true
+			}
+		}
+		_ = keyBinding
+		if r.IsKnown(id) && usesOtherKey {
+			r.Finding(id, "only-proposer-key", detail, wit(map[string]any{"end_state_genuine": sa, "end_state_adversarial": sb}))
+		} else {
+			r.Violation("only-proposer-key", detail, wit(map[string]any{"end_state_genuine": sa, "end_state_adversarial": sb}))
+		}
+	}
+	r.Eval(c.key(), len(advs) > 0 && sa.Height >= p.Spec.Initial, map[string]any{"case": c})
+}
+
+func genCase(rng *rand.Rand, p *world.Produced, id int, shape string, atk world.Keys) (Case, []step, []Adv) {
+	n := len(p.Heights)
+	c := Case{ID: id, Shape: shape, Ingress: "da"}
+	if rng.Intn(5) == 0 {
+		c.Ingress = "p2p"
+	}
+	c.OmitDataOnDA = rng.Intn(4) == 0
+	// genuine traffic: mostly DA, some channel/p2p
+	type unit struct {
+		data bool
+		i    int
+	}
+	var daUnits []unit
+	var steps []step
+	var chActs []world.Action
+	for i := 0; i < n; i++ {
+		via := rng.Intn(10)
+		if c.Ingress == "p2p" {
+			via = 9 // headers reach the node through DA here; the P2P store carries the adversary's headers
+		}
+		if via < 2 {
+			chActs = append(chActs, world.Action{Kind: "ch-h", I: i})
+		} else {
+			daUnits = append(daUnits, unit{false, i})
+		}
+		if len(p.Txs[i]) > 0 {
+			if c.OmitDataOnDA || via < 2 {
+				chActs = append(chActs, world.Action{Kind: "ch-d", I: i})
+			} else {
+				daUnits = append(daUnits, unit{true, i})
+			}
+		}
+	}
+	// near-ordered DA placement with some disorder
+	for k := 0; k < len(daUnits)/2; k++ {
+		a, b := rng.Intn(len(daUnits)), rng.Intn(len(daUnits))
+		if a-b < 3 && b-a < 3 {
+			daUnits[a], daUnits[b] = daUnits[b], daUnits[a]
+		}
+	}
+	for len(daUnits) > 0 {
+		k := 1 + rng.Intn(3)
+		if k > len(daUnits) {
+			k = len(daUnits)
+		}
+		a := world.Action{Kind: "da"}
+		for _, u := range daUnits[:k] {
+			a.DA = append(a.DA, world.Item{D: u.data, I: u.i})
+		}
+		daUnits = daUnits[k:]
+		steps = append(steps, step{Act: a})
+		if rng.Intn(3) == 0 {
+			steps = append(steps, step{Act: world.Action{Kind: "da"}}) // empty DA height (may receive adversarial blobs)
+		}
+		if rng.Intn(4) == 0 {
+			steps = append(steps, step{Act: world.Action{Kind: "include"}})
+		}
+	}
+	// channel actions interleaved at random positions (kept in their own relative order)
+	for _, a := range chActs {
+		pos := rng.Intn(len(steps) + 1)
+		steps = append(steps[:pos], append([]step{{Act: a}}, steps[pos:]...)...)
+	}
+	// adversarial items
+	var advs []Adv
+	nk := 1 + rng.Intn(3)
+	for k := 0; k < nk; k++ {
+		kind := Kinds[rng.Intn(len(Kinds))]
+		target := rng.Intn(n + 1)
+		if target >= n {
+			target = n - 1
+		}
+		items := MakeAdv(rng, p, kind, target, atk)
+		if len(items) == 0 {
+			continue
+		}
+		c.Kinds = append(c.Kinds, kind)
+		advs = append(advs, items...)
+		if c.Ingress == "p2p" {
+			continue
+		}
+		// position relative to the genuine item of the same height: before, same DA height, or after
+		var daIdx []int
+		for si, st := range steps {
+			if st.Act.Kind == "da" {
+				daIdx = append(daIdx, si)
+			}
+		}
+		if len(daIdx) == 0 {
+			continue
+		}
+		for _, it := range items {
+			si := daIdx[rng.Intn(len(daIdx))]
+			if rng.Intn(2) == 0 {
+				// aim before the genuine header of that height
+				for _, cand := range daIdx {
+					found := false
+					for _, g := range steps[cand].Act.DA {
+						if !g.D && p.Spec.Initial+uint64(g.I) >= it.Height {
+							found = true
+						}
+					}
+					if found {
+						si = cand
+						break
+					}
+				}
+			}
+			steps[si].Adv = append(steps[si].Adv, it)
+		}
+	}
+	if c.Ingress == "p2p" {
+		// the adversary's headers are served by a peer: they occupy the next positions of the P2P header store
+		var p2p []step
+		for i := range advs {
+			if advs[i].HdrHash != nil && !advs[i].IsData {
+				a := advs[i]
+				p2p = append(p2p, step{Act: world.Action{Kind: "p2p-adv"}, AdvP2P: &a})
+			}
+		}
+		for _, st := range p2p {
+			pos := rng.Intn(len(steps) + 1)
+			steps = append(steps[:pos], append([]step{st}, steps[pos:]...)...)
+		}
+	}
+	for _, st := range steps {
+		s := st.Act.String()
+		if st.Act.Kind == "p2p-adv" {
+			s = "p2p-adv(" + st.AdvP2P.Kind + ")"
+		}
+		for _, a := range st.Adv {
+			s += "+" + a.Kind
+		}
+		c.Schedule = append(c.Schedule, s)
+	}
+	sort.Strings(c.Kinds)
+	return c, steps, advs
+}
+
 // Run is the check entry point.
 func Run(r *vk.Run) {
-	r.Rule = "not implemented yet"
+	world.Silence()
+	r.Rule = "differential runs of a real full node (all loops) on the same delivery schedule with and without adversarial items built without the proposer's private key: " + strings.Join(Kinds, ", ") + "; ingress DA (same DA height as genuine blobs, before or after them, or empty DA heights) and P2P header store; positions before/at/after the genuine item of the same height; chains with empty and non-empty blocks; optionally the genuine data never reaches DA (so a forged copy of it must not advance DA inclusion). End states (blocks, state, DA-included height, recorded DA heights, execution and SetFinal logs) must be equal, no loop may have terminated for DA-borne material, every stored header must verify under the harness's copy of the proposer key, no DA-included mark for foreign hashes. Plus the header-only node: real go-header Store+Syncer behind subscriber/exchange doubles (clause light-node). non-trivial = at least one adversarial item and the genuine run applied at least one block; distinct by (chain shape, kinds, ingress, schedule)"
+	r.Assume("adversary has no access to the proposer's private key; items are delivered through the node's own DA scan / P2P store loops, not through libp2p gossip")
+	ctx := context.Background()
+	keys := world.NewKeys("proposer")
+	atk := world.NewKeys("attacker")
+	rng := r.Rand("cases")
+	type job struct {
+		p     *world.Produced
+		c     Case
+		steps []step
+		advs  []Adv
+	}
+	var jobs []job
+	id := 0
+	nChains := r.N(10, 80)
+	per := r.N(25, 120)
+	for ci := 0; ci < nChains; ci++ {
+		n := 3 + rng.Intn(6)
+		shape := ""
+		spec := world.ChainSpec{Initial: 1}
+		for b := 0; b < n; b++ {
+			if rng.Intn(3) == 0 {
+				spec.Blocks = append(spec.Blocks, nil)
+				shape += "e"
+			} else {
+				spec.Blocks = append(spec.Blocks, [][]byte{[]byte(fmt.Sprintf("c03-%d-%d-a", ci, b)), []byte(fmt.Sprintf("c03-%d-%d-b", ci, b))})
+				shape += "x"
+			}
+		}
+		p, err := world.ProduceChain(ctx, spec, keys)
+		if err != nil {
+			r.Violation("producer", err.Error(), nil)
+			return
+		}
+		for k := 0; k < per; k++ {
+			c, steps, advs := genCase(rng, p, id, shape, atk)
+			id++
+			jobs = append(jobs, job{p, c, steps, advs})
+		}
+	}
+	r.Require("differential", int64(len(jobs)*9/10))
+	var wg sync.WaitGroup
+	ch := make(chan job)
+	for w := 0; w < 14; w++ {
+		wg.Add(1)
+		go func() {
+			defer wg.Done()
+			for j := range ch {
+				runCase(r, j.p, j.c, j.steps, j.advs)
+			}
+		}()
+	}
+	for _, j := range jobs {
+		ch <- j
+	}
+	close(ch)
+	wg.Wait()
+	lightNode(r, keys, atk)
 }
+
+func commitmentOf(txs [][]byte) []byte { return monitorsCommitment(txs) }
+
+var _ = bytes.Equal
